@@ -1,20 +1,32 @@
 /-
-Line-protocol engine `calcremote` (C48).  Stateless; addresses/prefixes as in `NetArgs`.
+Line-protocol engine `calcremote` (C48).  Addresses/prefixes as in `NetArgs`.  The first four ops are stateless;
+the configuration ops carry a state (own overlay network, the model's `LHState`, the specification's configuration
+in force) that `reset` clears.
 ops:
   new <cidr> <mask> <port>          -> `ok <ipNet> <maskedMask> <port>` | `err:family` | `err:port`
   v4  <cidr> <mask> <port> <addr>   -> `<ip> <port>` | `panic` | `err:…`     (newCalculatedRemote, then ApplyV4)
   v6  <cidr> <mask> <port> <addr>   -> `<hi> <lo> <port>` | `panic` | `err:…`
   add <myNet> <vpnAddr> <n> { <cidr> <k> { <mask> <port> }*k }*n
                                     -> `<0|1> v4=<ip:port,…|-> v6=<hi:lo:port,…|->` | `panic` | `err:new`
+  reset <myNet>                     -> `ok`
+  cfgload <cfg>                     -> `ok tbl=<dump>` | `fatal`                  (NewLightHouseFromConfig)
+  cfgreload <cfg>                   -> `<changed|unchanged|err> tbl=<dump>` | `nolh`  (ReloadConfigString)
+  cfgreloadx <cfg>                  the same reload, but the file also has an invalid lighthouse.remote_allow_list:
+                                    LightHouse.reload returns before the calculated_remotes block
+                                    -> `earlier-err tbl=<dump>` | `nolh`
+  probe <addr>                      -> as `add`, on the table in force | `nolh`
+  (<cfg>, <dump>: see Driver/CalcRemoteCfg.lean and harness/calcremote/reload_test.go)
 -/
 import Nebula.Driver.Common
 import Nebula.Driver.NetArgs
 import Nebula.Model.CalcRemote
 import Nebula.Spec.CalcRemote
+import Nebula.Driver.CalcRemoteCfg
 
 namespace Nebula.Driver.CalcRemote
 open Nebula.Driver Nebula.CalcRemote Nebula.Net
-open Nebula.Spec.CalcRemote (splice Entry)
+open Nebula.Spec.CalcRemote (splice Entry cfgValid inForce1)
+open Nebula.Driver.CalcRemoteCfg (St parseCfg dumpTable dumpSpec specCfg derivable answerRemotes knownClass)
 
 def errStr : NewErr → String
   | .family => "err:family"
@@ -83,7 +95,109 @@ def specAdd (myNet : Prefix) (cfg : List (Prefix × List (Prefix × Int))) (a : 
 def lenTag (w len : Nat) : String :=
   if len == 0 then "len0" else if len == w then "lenfull" else if len % 8 == 0 then "lenbyte" else "lenbit"
 
-def step (s : Unit) (args : List String) (impl : String) : Unit × Out :=
+def cfgTag (c : CfgV) : String :=
+  match c with
+  | .absent => "absent"
+  | .nonMap _ => "invalid:nonmap"
+  | .map es =>
+    if cfgValid c then (if es.isEmpty then "emptymap" else if es.length == 1 then "one-range" else "ranges")
+    else if es.any (fun e => match e.1 with | .bad _ => true | .ok _ => false) then "invalid:cidr"
+    else if es.any (fun e => match e.2 with | .nonList _ => true | .list _ => false) then "invalid:nonlist"
+    else
+      let items := es.flatMap (fun e => match e.2 with | .list l => l | .nonList _ => [])
+      if items.any (fun i => match i with | .nonMap _ => true | _ => false) then "invalid:item"
+      else if items.any (fun i => match i with | .entry (.missing _) _ => true | _ => false) then "invalid:mask-missing"
+      else if items.any (fun i => match i with | .entry (.nonString _) _ => true | _ => false) then "invalid:mask-type"
+      else if items.any (fun i => match i with | .entry (.str (.bad _)) _ => true | _ => false) then "invalid:mask-parse"
+      else if items.any (fun i => match i with | .entry _ (.missing _) => true | _ => false) then "invalid:port-missing"
+      else if items.any (fun i => match i with | .entry _ (.other _) => true | _ => false) then "invalid:port-type"
+      else if items.any (fun i => match i with | .entry _ (.strBad _) => true | _ => false) then "invalid:port-atoi"
+      else if items.any (fun i => match i with
+          | .entry _ (.int n) | .entry _ (.str n) => n < 0 || n > 65535 | _ => false) then "invalid:port-range"
+      else "invalid:family"
+
+/-- the configuration ops. -/
+def cfgOps (s : St) (args : List String) (impl : String) : Option (St × Out) :=
+  match args with
+  | ["reset", myNet] =>
+    match parsePrefix myNet with
+    | some my => some ({ myNet := my }, { model := "ok", verdict := "ok", tag := "triv:reset" })
+    | none => some (s, badOp)
+  | "cfgload" :: toks =>
+    match parseCfg toks with
+    | none => some (s, badOp)
+    | some c =>
+      let (m', _) := cfgRun1 none (.load c)
+      let force' := inForce1 none (.load c)
+      let model := match m' with | none => "fatal" | some st => "ok tbl=" ++ dumpTable st.tbl
+      let want := match force' with | none => "fatal" | some f => "ok tbl=" ++ dumpSpec f
+      some ({ s with model := m', force := force', poisoned := false },
+        { model := model, verdict := expect "reload-table-mismatch" impl want, tag := "load:" ++ cfgTag c })
+  | "cfgreloadx" :: toks =>
+    match parseCfg toks with
+    | none => some (s, badOp)
+    | some c =>
+      let (m', _) := cfgRun1 s.model (.reloadEarlierErr c)
+      let force' := inForce1 s.force (.reloadEarlierErr c)
+      let model := match m' with | some st => "earlier-err tbl=" ++ dumpTable st.tbl | none => "nolh"
+      let want := match force' with | some f => "earlier-err tbl=" ++ dumpSpec f | none => "nolh"
+      some ({ s with model := m', force := force', poisoned := m'.isSome },
+        { model := model, verdict := knownClass s.poisoned model impl (expect "reload-table-mismatch" impl want),
+          tag := if m'.isNone then "triv:reloadx:nolh" else "reloadx:" ++ cfgTag c })
+  | "cfgreload" :: toks =>
+    match parseCfg toks with
+    | none => some (s, badOp)
+    | some c =>
+      let (m', o) := cfgRun1 s.model (.reload c)
+      let force' := inForce1 s.force (.reload c)
+      let model := match m', o with
+        | some st, some .stored => "changed tbl=" ++ dumpTable st.tbl
+        | some st, some .unchanged => "unchanged tbl=" ++ dumpTable st.tbl
+        | some st, _ => "err tbl=" ++ dumpTable st.tbl
+        | none, _ => "nolh"
+      let verdict := match force' with
+        | none => expect "reload-table-mismatch" impl "nolh"
+        | some f =>
+          match impl.splitOn " tbl=" with
+          | [status, dump] =>
+            if dump != dumpSpec f then s!"bad reload-table-mismatch want-tbl={dumpSpec f}"
+            else if cfgValid c then
+              (if status == "changed" || status == "unchanged" then "ok" else s!"bad reload-status valid-config-answered-{status}")
+            else
+              (if status == "err" || status == "unchanged" then "ok" else s!"bad reload-status invalid-config-answered-{status}")
+          | _ => s!"bad reload-table-mismatch want-tbl={dumpSpec f}"
+      let same := match s.model with | some st => st.prev == c | none => false
+      let stored := match o with | some .stored => true | _ => false
+      some ({ s with model := m', force := force', poisoned := s.poisoned && !stored },
+        { model := model, verdict := knownClass s.poisoned model impl verdict,
+          tag := if s.model.isNone then "triv:reload:nolh" else
+            "reload:" ++ (if s.poisoned then "after-failed:" else "") ++ (if same then "same:" else "") ++ cfgTag c })
+  | ["probe", addr] =>
+    match parseAddr addr with
+    | none => some (s, badOp)
+    | some a =>
+      match s.model, s.force with
+      | some st, some f =>
+        let model := match addCalculatedRemotes s.myNet st.tbl a with
+          | .panic => "panic"
+          | .ok o => showAdd o
+        let want := specAdd s.myNet (specCfg f) a
+        let ok := derivable f a
+        let stale := (answerRemotes impl).filter (fun r => !ok.contains r)
+        let verdict :=
+          if !stale.isEmpty then s!"bad stale-calculated-remotes not-from-the-configuration-in-force={",".intercalate stale}"
+          else expect "add-range-splice" impl want
+        let tag := match lpm (specCfg f) a with
+          | none => if (specCfg f).isEmpty then "probe:unconfigured" else "probe:outside"
+          | some _ => if want.endsWith "v4=- v6=-" then "probe:inside-nothing" else "probe:inside"
+        some (s, { model := model, verdict := knownClass s.poisoned model impl verdict, tag := tag })
+      | _, _ => some (s, { model := "nolh", verdict := expect "reload-table-mismatch" impl "nolh", tag := "triv:probe:nolh" })
+  | _ => none
+
+def step (s : St) (args : List String) (impl : String) : St × Out :=
+  match cfgOps s args impl with
+  | some r => r
+  | none =>
   match args with
   | ["new", cidr, mask, port] =>
     match parsePrefix cidr, parsePrefix mask, intArg port with
@@ -145,6 +259,6 @@ def step (s : Unit) (args : List String) (impl : String) : Unit × Out :=
     | _, _, _ => (s, badOp)
   | _ => (s, badOp)
 
-def main : IO Unit := runEngine () step
+def main : IO Unit := runEngine ({} : St) step
 
 end Nebula.Driver.CalcRemote
